@@ -100,7 +100,10 @@ def strat_single(draw, tier="quick"):
     cost = draw(st.sampled_from(COSTS_SINGLE))
     pois = cost in COUNT
     nsrc = (0, 0) if cost in POIS else ((0, 3) if cost in ("chi2", "chi2_no_errors") else (1, 3))
-    if t == "xy":
+    if t == "xy" and cost in ("chi2", "chi2_covariance", "chi2_pointwise") and draw(st.integers(0, 5)) == 0:
+        # many points (the other generators stop at 8), any unit of y
+        spec = draw(S.xy_long_spec(costs=(cost,), n_points=(20, 120) if tier == "quick" else (20, 400)))
+    elif t == "xy":
         spec = draw(S.xy_spec(families=["const", "line", "expo", "gauss"] if pois else None, costs=(cost,), n_sources=nsrc, poisson_data=pois, fixed=True,
                               y_scales=(None, None, 1e-3, 1e-5, 1e-7, 1e4)))
     elif t == "indexed":
